@@ -50,11 +50,14 @@ def gen_case(seed):
     opts = gen_config(rng)
     opts["mds_client"] = rng.choice([1200, 1201, 1252, 1350, 1452, 1500])
     opts["mds_server"] = rng.choice([1200, 1201, 1252, 1350, 1452, 1500])
-    if rng.random() < 0.5:
+    r = rng.random()
+    if r < 0.35:
         opts["certfile"] = "ssl_cert_with_chain.pem"
+    elif r < 0.65:
+        opts["cert_kind"] = "ec"  # flight smaller than one datagram: Initial datagrams padded at the datagram end
     fates = gen_fates(rng)
     fates["adv_seconds"] = rng.choice([1.0, 2.0, 4.0])
-    pattern = rng.choice(["plain", "spoof", "spoof", "rebind", "rebind-early", "heavy-loss"])
+    pattern = rng.choice(["plain", "spoof", "spoof", "rebind", "rebind-early", "heavy-loss", "silent-client", "silent-client"])
     fates.pop("rebind_after", None)
     if pattern == "spoof":
         fates["spoof_first"] = rng.choice([1, 2, 5])
@@ -65,12 +68,19 @@ def gen_case(seed):
         fates["rebind_after"] = rng.choice([1, 2, 3, 4])
     elif pattern == "heavy-loss":
         fates["loss"] = 0.5
+    elif pattern == "silent-client":
+        # only the client's first datagram(s) get through: the server keeps retransmitting its
+        # (padded) flight on probe timeouts towards an address it can never validate
+        fates["blackouts"] = [[rng.choice([0.0005, 0.03, 0.06]), 1e9, "c2s"]]
+        fates["adv_seconds"] = 40.0
+        fates["adv_dgrams"] = 10**6
+        fates["loss"] = 0.0
     script = gen_script(rng, fates["adv_seconds"], max_streams=4, budget_bytes=120000, allow_key_update=False, allow_stop=False)
     if rng.random() < 0.4:
         # data written before the handshake completes (fills the congestion window as soon as keys exist)
         script.append({"t": 0.0, "side": "client", "op": "write", "sid": 40, "n": rng.choice([5000, 40000]), "fin": True})
         script.sort(key=lambda o: o["t"])
-    return {"seed": seed, "opts": opts, "fates": fates, "script": script, "horizon": fates["adv_seconds"] + 60.0, "pattern": pattern}
+    return {"seed": seed, "opts": opts, "fates": fates, "script": script, "horizon": min(fates["adv_seconds"], 40.0) + 60.0, "pattern": pattern}
 
 
 def run_batch(batch):
@@ -85,7 +95,7 @@ def run_batch(batch):
         sim, ok = run_case(sc, [em], res, {"gen": "emission", "seeds": [seed]},
                            counters=("datagrams_checked", "initial_datagrams", "amplification_checks", "unvalidated_sends"),
                            nontrivial=lambda s: em.unvalidated_sends > 0,
-                           sig_extra=(sc["pattern"], sc["opts"]["mds_client"], sc["opts"]["mds_server"], sc["opts"].get("certfile")))
+                           sig_extra=(sc["pattern"], sc["opts"]["mds_client"], sc["opts"]["mds_server"], sc["opts"].get("certfile"), sc["opts"].get("cert_kind")))
         res.maxc("max_sent_over_received_x100_unvalidated", em.max_ratio_x100)
         res.count("pattern_" + sc["pattern"])
         if ok:
